@@ -122,6 +122,10 @@ def scenarios(ctx):
                        init=(('connect', 0, True, 3, 4), ('connack', 0, 0, False)), reconnects=[(True, 0, 4)],
                        budgets=dict(pub=2 if q else 3, ack=1 if q else 2, tick=3, lose=1, rebuild=1, connect=1, connack=1),
                        pub_qos=(1, 2)))
+    out.append(Scn('pub-queue-w1', profile='pub', mode='sync', init=CONNECTED, reconnects=[(True, 0, 4)],
+                   budgets=dict(pub=4 if q else 5, ack=0 if q else 1, lose=1, disconnect=1, rebuild=1, connect=1, connack=1,
+                                tick=0 if q else 1),
+                   pub_qos=(0, 1) if q else (0, 1, 2), lose_kinds=('done',)))
     out.append(Scn('pubsub-connecting', profile='pubsub', mode='async', connects=[(True, 2, 4)],
                    reconnects=[(True, 0, 4)],
                    budgets=dict(connect=2, connack=2, pub=2, tick=2, lose=1, rebuild=1, sub=1), pub_qos=(1,),
